@@ -230,7 +230,40 @@ func shapes(v ssa.Value, depth int) []strAlt {
 				out = append(out, strAlt{parts: []strPart{{kind: kind, text: obj.Name() + "(…)", src: x}}, facts: a.facts})
 			}
 			return out
-		case isMethodNamed(obj, "net/url", "URL", "EscapedPath"), isFuncNamed(obj, "net/url", "PathEscape"):
+		case isMethodNamed(obj, "net/url", "URL", "EscapedPath"):
+			// EscapedPath returns RawPath only when it is the encoding net/url itself would produce; otherwise it re-encodes
+			// the *decoded* Path, in which an encoded slash of RawPath is already a real one. It is the encoded form of the
+			// routed path only where RawPath is known to be empty.
+			rawEmpty := false
+			for _, ft := range factsAtBlock(x.Block()) {
+				bo, ok := ft.Cond.(*ssa.BinOp)
+				if !ok {
+					continue
+				}
+				isRaw := func(v ssa.Value) bool {
+					if c, ok := v.(*ssa.Call); ok {
+						if b, ok := c.Call.Value.(*ssa.Builtin); ok && b.Name() == "len" {
+							v = c.Call.Args[0]
+						}
+					}
+					_, f, ok := loadedField(v)
+					return ok && f.Name() == "RawPath"
+				}
+				if !isRaw(bo.X) {
+					continue
+				}
+				sv, isS := constString(bo.Y)
+				zv, isZ := constInt(bo.Y)
+				empty := (isS && sv == "") || (isZ && zv == 0)
+				if empty && ((bo.Op == token.EQL && ft.Val) || (bo.Op == token.NEQ && !ft.Val) || (bo.Op == token.GTR && !ft.Val)) {
+					rawEmpty = true
+				}
+			}
+			if rawEmpty {
+				return one(strPart{kind: "escaped", text: "EscapedPath() with RawPath empty", src: x})
+			}
+			return one(strPart{kind: "reencoded", text: "EscapedPath()", src: x})
+		case isFuncNamed(obj, "net/url", "PathEscape"):
 			return one(strPart{kind: "escaped", text: obj.Name() + "()", src: x})
 		}
 		return one(strPart{kind: "unknown", text: valStr(x), src: x})
@@ -321,6 +354,9 @@ func checkC08Location(w *World, r *Report) {
 				ds = append(ds, p.kind+":"+p.text)
 				if p.kind == "raw" {
 					bad = "contains the decoded URL.Path (" + p.text + "): reserved characters are re-interpreted by the client"
+				}
+				if p.kind == "reencoded" {
+					bad = "built from URL.EscapedPath() without knowing RawPath to be empty: when RawPath holds bytes net/url would escape differently, EscapedPath re-encodes the decoded path and an encoded slash (%2F) of the routed path becomes a real one"
 				}
 				if p.kind == "unknown" || p.kind == "param" {
 					bad = "UNDECIDED: part of unknown provenance " + p.text
@@ -782,9 +818,18 @@ func checkC08CaseAnalysis(w *World, r *Report) {
 			fromSlash := strings.Contains(defs[idxVar], "childKeys") && (strings.Contains(defs[idxVar], "slashDelim") || strings.Contains(defs[idxVar], "'/'"))
 			childLeaf := holds(facts, func(e string, v bool) bool { return e == child+".isLeaf()" && v })
 			bothConsumed := holdsEq(facts, "charsMatched", "len(path)") && holdsEq(facts, "charsMatchedInNodeFound", "len(current.key)")
+			// adding a slash is only an adjustment of a path that does not already end with one (the redirect handler toggles
+			// the last slash: for a path ending in "/" it would remove it)
+			noSlashYet := holds(facts, func(e string, v bool) bool {
+				return (e == "strings.HasSuffix(path,\"/\")" && !v) || (e == "!strings.HasSuffix(path,\"/\")" && v)
+			})
+			if !noSlashYet {
+				keyIsSlash = false
+				whyA = fmt.Sprintf("candidate at %s is also recorded for a path that already ends with \"/\" (no test of strings.HasSuffix(path, \"/\"))", w.Pos(at.Pos()))
+			}
 			if keyIsSlash && fromSlash && childLeaf && bothConsumed {
 				foundA = w.Pos(at.Pos())
-			} else {
+			} else if noSlashYet {
 				whyA = fmt.Sprintf("candidate at %s: keyIsSlash=%v indexFromSlashSearch=%v childIsLeaf=%v keyAndPathConsumed=%v", w.Pos(at.Pos()), keyIsSlash, fromSlash, childLeaf, bothConsumed)
 			}
 		}
